@@ -16,6 +16,23 @@ open Fs Fs.Ref Fs.TreeLemmas Fs.MemRefines
 /-- no path argument contains NUL -/
 def noNul (op : Op) : Prop := ∀ p ∈ op.paths, '\x00' ∉ p
 
+open Fs.Path Fs.PathSpec in
+/-- exception class: `WrapFS.removedir` / `removetree` evaluate `abspath(normpath(path))` BEFORE
+`delegate_path`, so a path that contains NUL *and* climbs is reported as IllegalBackReference (the
+reference looks at the characters first: InvalidCharsInPath), and `removedir` of a NUL path that
+normalises to the root as RemoveRootError -/
+def nulRootTest : Op → Prop
+  | .removedir p => '\x00' ∈ p ∧ (resolve (splitSlash p) = none ∨ resolve (splitSlash p) = some [])
+  | .removetree p => '\x00' ∈ p ∧ resolve (splitSlash p) = none
+  | _ => False
+
+/-- exception class: `openbin` with an invalid mode AND an invalid path — `WrapFS.openbin` delegates
+the path (its error) before the inner `openbin` looks at the mode (ValueError) -/
+def excOpenbin : Op → Prop
+  | .openbin p m => parseBinMode m = none ∧ ∃ e, validate p = .err e
+  | _ => False
+
+
 /-- the parent state is open and well-formed and holds a directory (with entries `es`) at `pth` -/
 structure Good (s : State) (pth : List Name) (es : Ents) : Prop where
   opn : s.closed = false
@@ -32,7 +49,7 @@ def SimAt (F : Wrap.FS State) (pth : List Name) (s : State) (es : Ents) (op : Op
   (∀ e, (F s op).2 = .err e → (F s op).1 = s ∧ e ∈ adm (V es) op)
 
 def Sim (F : Wrap.FS State) (pth : List Name) : Prop :=
-  ∀ (s : State) (es : Ents) (op : Op), Good s pth es → op ≠ .close → noNul op → ¬ knownDeviation op →
+  ∀ (s : State) (es : Ents) (op : Op), Good s pth es → op ≠ .close → ¬ nulRootTest op → ¬ knownDeviation op →
     (Ref.step (V es) op).2 ≠ .err .OperationFailed → SimAt F pth s es op
 
 theorem viewOf_good {s : State} {pth : List Name} {es : Ents} (G : Good s pth es) :
@@ -137,12 +154,12 @@ theorem core {F : Wrap.FS State} {pth sub : List Name} (hS : Sim F pth) {s : Sta
           · exact Or.inr h)
     rw [mapPaths_id] at this
     exact this
-  have hnn' : noNul (mapPaths (fdel sub) op) := by
-    intro q hq
-    rw [paths_mapPaths] at hq
-    obtain ⟨p, hp, rfl⟩ := List.mem_map.1 hq
-    obtain ⟨cs, hcs⟩ := hval p hp
-    exact nul_fdel hsn hcs
+  have hnn' : ¬ nulRootTest (mapPaths (fdel sub) op) := by
+    intro hx
+    cases op <;> simp only [mapPaths, nulRootTest] at hx
+    all_goals (
+      obtain ⟨cs, hcs⟩ := hval _ (List.mem_singleton_self _)
+      exact nul_fdel hsn hcs hx.1)
   have hk' : ¬ knownDeviation (mapPaths (fdel sub) op) := by
     intro hd
     apply hk
@@ -175,37 +192,128 @@ theorem core {F : Wrap.FS State} {pth sub : List Name} (hS : Sim F pth) {s : Sta
     exact ⟨cs, hcs, validate_fdel hsn hcs⟩
 
 
-/-! ### climbing paths -/
+/-! ### path arguments that do not validate (climbing, NUL) -/
 
-open Fs.Path Fs.PathSpec in
-/-- what `delegate_path` / the root test do on any path: by its resolution only -/
+/-- what `delegate_path` and the root test do on any path, in terms of `Ref.validate` -/
 theorem delegate_cases (sub : List Name) (hs : PathSpec.Clean sub) (p : Str) :
-    (∃ cs, resolve (splitSlash p) = some cs ∧ Wrap.Sub.delegate (absOf sub) p = .ok (absOf (sub ++ cs)) ∧
-      Wrap.isRootPath p = .ok (decide (cs = []))) ∨
-    (resolve (splitSlash p) = none ∧ Wrap.Sub.delegate (absOf sub) p = .err .IllegalBackReference ∧
-      Wrap.isRootPath p = .err .IllegalBackReference) := by
-  cases hr : resolve (splitSlash p) with
-  | none => exact Or.inr ⟨rfl, delegate_of_climb hr, isRootPath_of_climb hr⟩
-  | some cs => exact Or.inl ⟨cs, rfl, delegate_of_resolve hs hr, isRootPath_of_resolve hr⟩
+    (∃ cs, validate p = .ok cs ∧ PathSpec.resolve (Path.splitSlash p) = some cs ∧
+      Wrap.Sub.delegate (absOf sub) p = .ok (absOf (sub ++ cs)) ∧ Wrap.isRootPath p = .ok (decide (cs = []))) ∨
+    (∃ e, validate p = .err e ∧ Wrap.Sub.delegate (absOf sub) p = .err e) := by
+  have := delegate_eq_validate hs p
+  cases hv : validate p with
+  | ok cs =>
+    rw [hv] at this
+    exact Or.inl ⟨cs, rfl, validate_ok_resolve hv, this, isRootPath_of_resolve (validate_ok_resolve hv)⟩
+  | err e => rw [hv] at this; exact Or.inr ⟨e, rfl, this⟩
 
-open Fs.Path Fs.PathSpec in
-/-- **a climbing path argument is refused with IllegalBackReference before the parent is touched**,
-whatever the operation, the argument position and the inner filesystem -/
-theorem stepOpen_climb {σ : Type} (F : Wrap.FS σ) (sub : List Name) (hs : PathSpec.Clean sub) (s : σ) (op : Op)
-    (hc : ∃ p ∈ op.paths, resolve (splitSlash p) = none) :
-    Wrap.Sub.stepOpen (absOf sub) F s op = (s, .err .IllegalBackReference) := by
-  obtain ⟨p, hp, hr⟩ := hc
-  cases op <;> simp only [Op.paths, List.mem_cons, List.not_mem_nil, or_false] at hp
-  all_goals first
-    | (subst hp
-       simp [Wrap.Sub.stepOpen, Wrap.stepOpen, Wrap.direct1, Wrap.getinfo, Wrap.isempty, Wrap.removedir,
-         Wrap.removetree, delegate_of_climb hr, isRootPath_of_climb hr])
-    | (rename_i a b c
-       rcases delegate_cases sub hs a with ⟨ca, hra, hda, _⟩ | ⟨hra, hda, _⟩ <;>
-       rcases hp with rfl | rfl <;>
-       first
-        | (simp [Wrap.Sub.stepOpen, Wrap.stepOpen, Wrap.direct2, Wrap.copy, Wrap.copydir, hda, delegate_of_climb hr]; done)
-        | (rw [hr] at hra; cases hra))
+theorem isRootPath_cases (p : Str) :
+    (PathSpec.resolve (Path.splitSlash p) = none ∧ Wrap.isRootPath p = .err .IllegalBackReference) ∨
+    (∃ cs, PathSpec.resolve (Path.splitSlash p) = some cs ∧ Wrap.isRootPath p = .ok (decide (cs = []))) := by
+  cases hr : PathSpec.resolve (Path.splitSlash p) with
+  | none => exact Or.inl ⟨rfl, isRootPath_of_climb hr⟩
+  | some cs => exact Or.inr ⟨cs, rfl, isRootPath_of_resolve hr⟩
+
+/-- **a path argument that does not validate — it climbs, or contains NUL — is refused before the
+parent is touched**, in whatever argument position, whatever the inner filesystem; and outside the
+two decided exception classes the class is the reference's -/
+theorem stepOpen_invalid {σ : Type} (F : Wrap.FS σ) (sub : List Name) (hs : PathSpec.Clean sub) (s : σ) (op : Op)
+    (hinv : ∃ p ∈ op.paths, ∃ e, validate p = .err e) :
+    ∃ e, Wrap.Sub.stepOpen (absOf sub) F s op = (s, .err e) ∧
+      (¬ nulRootTest op → (∃ p ∈ op.paths, validate p = .err e) ∧
+        ∀ v : State, v.closed = false → ¬ excOpenbin op → Ref.step v op = fail v e) := by
+  obtain ⟨p0, hp0, e0, he0⟩ := hinv
+  cases op with
+  | close => simp [Op.paths] at hp0
+  | move a b o | movedir a b o | copy a b o | copydir a b o =>
+    all_goals (
+      simp only [Op.paths, List.mem_cons, List.not_mem_nil, or_false] at hp0
+      rcases delegate_cases sub hs a with ⟨ca, hva, _, hda, _⟩ | ⟨ea, hva, hda⟩
+      · rcases delegate_cases sub hs b with ⟨cb, hvb, _, hdb, _⟩ | ⟨eb, hvb, hdb⟩
+        · rcases hp0 with rfl | rfl
+          · rw [hva] at he0; cases he0
+          · rw [hvb] at he0; cases he0
+        · refine ⟨eb, by simp [Wrap.Sub.stepOpen, Wrap.stepOpen, Wrap.direct2, Wrap.copy, Wrap.copydir, hda, hdb], ?_⟩
+          intro _
+          refine ⟨⟨b, by simp [Op.paths], hvb⟩, ?_⟩
+          intro v hv _
+          rw [QueryLemmas.step_two v _ a b hv rfl, hva, hvb]
+      · refine ⟨ea, by simp [Wrap.Sub.stepOpen, Wrap.stepOpen, Wrap.direct2, Wrap.copy, Wrap.copydir, hda], ?_⟩
+        intro _
+        refine ⟨⟨a, by simp [Op.paths], hva⟩, ?_⟩
+        intro v hv _
+        rw [QueryLemmas.step_two v _ a b hv rfl, hva])
+  | removedir p =>
+    simp only [Op.paths, List.mem_cons, List.not_mem_nil, or_false] at hp0
+    subst hp0
+    rcases delegate_cases sub hs p0 with ⟨cs, hv, _⟩ | ⟨e, hv, hd⟩
+    · rw [hv] at he0; cases he0
+    rw [he0] at hv; cases hv
+    have href : ∀ v : State, v.closed = false → Ref.step v (.removedir p0) = fail v e0 := by
+      intro v hv; rw [QueryLemmas.step_one v _ p0 hv rfl (by simp), he0]
+    rcases isRootPath_cases p0 with ⟨hr, hroot⟩ | ⟨cs, hr, hroot⟩
+    · refine ⟨.IllegalBackReference, by simp [Wrap.Sub.stepOpen, Wrap.stepOpen, Wrap.removedir, hroot], ?_⟩
+      intro hx
+      by_cases hn : '\x00' ∈ p0
+      · exact absurd ⟨hn, Or.inl hr⟩ hx
+      · obtain ⟨rfl, _⟩ := validate_err_noNul hn he0
+        exact ⟨⟨p0, by simp [Op.paths], he0⟩, fun v hv _ => href v hv⟩
+    · by_cases hcs : cs = []
+      · subst hcs
+        refine ⟨.RemoveRootError, by simp [Wrap.Sub.stepOpen, Wrap.stepOpen, Wrap.removedir, hroot], ?_⟩
+        intro hx
+        by_cases hn : '\x00' ∈ p0
+        · exact absurd ⟨hn, Or.inr hr⟩ hx
+        · obtain ⟨_, hr'⟩ := validate_err_noNul hn he0
+          rw [hr] at hr'; cases hr'
+      · refine ⟨e0, by simp [Wrap.Sub.stepOpen, Wrap.stepOpen, Wrap.removedir, hroot, hcs, hd], ?_⟩
+        intro _
+        exact ⟨⟨p0, by simp [Op.paths], he0⟩, fun v hv _ => href v hv⟩
+  | removetree p =>
+    simp only [Op.paths, List.mem_cons, List.not_mem_nil, or_false] at hp0
+    subst hp0
+    rcases delegate_cases sub hs p0 with ⟨cs, hv, _⟩ | ⟨e, hv, hd⟩
+    · rw [hv] at he0; cases he0
+    rw [he0] at hv; cases hv
+    have href : ∀ v : State, v.closed = false → Ref.step v (.removetree p0) = fail v e0 := by
+      intro v hv; rw [QueryLemmas.step_one v _ p0 hv rfl (by simp), he0]
+    rcases isRootPath_cases p0 with ⟨hr, hroot⟩ | ⟨cs, hr, hroot⟩
+    · refine ⟨.IllegalBackReference, by simp [Wrap.Sub.stepOpen, Wrap.stepOpen, Wrap.removetree, hroot], ?_⟩
+      intro hx
+      by_cases hn : '\x00' ∈ p0
+      · exact absurd ⟨hn, hr⟩ hx
+      · obtain ⟨rfl, _⟩ := validate_err_noNul hn he0
+        exact ⟨⟨p0, by simp [Op.paths], he0⟩, fun v hv _ => href v hv⟩
+    · refine ⟨e0, by simp [Wrap.Sub.stepOpen, Wrap.stepOpen, Wrap.removetree, hroot, hd], ?_⟩
+      intro _
+      exact ⟨⟨p0, by simp [Op.paths], he0⟩, fun v hv _ => href v hv⟩
+  | openbin p m =>
+    simp only [Op.paths, List.mem_cons, List.not_mem_nil, or_false] at hp0
+    subst hp0
+    rcases delegate_cases sub hs p0 with ⟨cs, hv, _⟩ | ⟨e, hv, hd⟩
+    · rw [hv] at he0; cases he0
+    rw [he0] at hv; cases hv
+    refine ⟨e0, by simp [Wrap.Sub.stepOpen, Wrap.stepOpen, Wrap.direct1, hd], ?_⟩
+    intro _
+    refine ⟨⟨p0, by simp [Op.paths], he0⟩, ?_⟩
+    intro v hv hx
+    rw [QueryLemmas.step_openbin v p0 m hv, he0]
+    have : (parseBinMode m).isNone = false := by
+      cases hm : parseBinMode m with
+      | none => exact absurd ⟨hm, e0, he0⟩ hx
+      | some md => rfl
+    simp [this]
+  | _ =>
+    all_goals (
+      simp only [Op.paths, List.mem_cons, List.not_mem_nil, or_false] at hp0
+      subst hp0
+      rcases delegate_cases sub hs p0 with ⟨cs, hv, _⟩ | ⟨e, hv, hd⟩
+      · rw [hv] at he0; cases he0
+      rw [he0] at hv; cases hv
+      refine ⟨e0, by simp [Wrap.Sub.stepOpen, Wrap.stepOpen, Wrap.direct1, Wrap.getinfo, Wrap.isempty, hd], ?_⟩
+      intro _
+      refine ⟨⟨p0, by simp [Op.paths], he0⟩, ?_⟩
+      intro v hv _
+      rw [QueryLemmas.step_one v _ p0 hv rfl (by simp), he0])
 
 theorem ref_step_invalid (s : State) (op : Op) (p : Str) (e : Err) (hp : p ∈ op.paths)
     (hv : validate p = .err e) : ∃ e', Ref.step s op = fail s e' := by
